@@ -72,8 +72,11 @@ def entries(tier):
         out.append(("parafac", {"init": "svd", "normalize_factors": True, "_scale": sc}))
         out.append(("non_negative_parafac", {"init": "random", "normalize_factors": True, "_scale": sc}))
     out.append(("parafac", {"init": "random", "normalize_factors": True, "l2_reg": 0.1}))
+    out.append(("parafac", {"init": "svd", "orthogonalise": True}))                                   # (ranks above a mode size included: the wide factor is left alone)
+    out.append(("parafac", {"init": "random", "orthogonalise": 2, "normalize_factors": True}))
     out.append(("CP-class", {"init": "svd", "normalize_factors": True}))
     out.append(("parafac2", {"init": "random", "normalize_factors": True, "linesearch": True}))
+    out.append(("parafac2", {"init": "random", "normalize_factors": False, "linesearch": True, "nn_modes": "all"}))  # the function's default line search with the "all" shorthand
     out.append(("cmtf", {"init": "svd", "normalize_factors": True}))
     out.append(("tensor_ring_als", {"ls_solve": "lstsq"}))
     for svd in ("truncated_svd", "symeig_svd"):
